@@ -199,6 +199,7 @@ def _shard_body(prop, tier, seed, shard, n_examples, genome_len, known):
     from .gen import Src
     stats = Stats()
     holder = {}
+    recent = collections.deque(maxlen=40)      # the cases decided just before a failure (sequence replay)
 
     import faulthandler
     trace_dir = os.environ.get('VERIF_TRACE_DIR')
@@ -209,6 +210,8 @@ def _shard_body(prop, tier, seed, shard, n_examples, genome_len, known):
         if trace_dir:
             with open(os.path.join(trace_dir, 'shard-%d.json' % shard), 'w') as f:
                 json.dump({'case': case}, f, default=str)
+        if not stats.frozen:
+            recent.append(case)
         faulthandler.dump_traceback_later(prop.case_timeout, exit=True)
         if getattr(src, 'struct_exhausted', src.exhausted):
             stats.exhausted_genomes += 0 if stats.frozen else 1
@@ -229,6 +232,8 @@ def _shard_body(prop, tier, seed, shard, n_examples, genome_len, known):
                 if not stats.frozen:
                     stats.excluded_known += 1
                 return
+            if 'first' not in holder:
+                holder['first'] = (case, out, list(recent)[:-1])
             stats.frozen = True
             holder['case'] = case
             holder['out'] = out
@@ -243,7 +248,14 @@ def _shard_body(prop, tier, seed, shard, n_examples, genome_len, known):
     try:
         test()
     except Violation:
-        failure = (holder['case'], holder['out'])
+        failure = (holder['case'], holder['out'], holder['first'][2] if holder['case'] is holder['first'][0] else [])
+    except Exception as e:      # noqa
+        if 'first' in holder and 'Flaky' in type(e).__name__:
+            # the failure did not recur when Hypothesis re-ran the same input: it depends on state left behind by
+            # earlier cases in this process.  Keep the first failing case together with the cases before it.
+            failure = holder['first']
+        else:
+            raise
     return stats, failure
 
 
@@ -257,8 +269,8 @@ def run_shard(args):
     stats, failure = _in_big_thread(_shard_body, prop, tier, seed, shard, n_examples, genome_len, known)
     fail_ser = None
     if failure is not None:
-        case, out = failure
-        fail_ser = (case, out.signature, out.detail, out.classes)
+        case, out, prelude = failure
+        fail_ser = (case, out.signature, out.detail, prelude)
     return stats, fail_ser, time.time() - t0
 
 
@@ -316,11 +328,27 @@ def structural_shrink(prop, case, signature, known):
     return cur, cur_out
 
 
-def write_replay(prop, case, signature, detail, seed, tier):
+def confirm_replay(prop, path):
+    """re-decides a replay file in a fresh interpreter; True if it fails there too"""
+    import subprocess
+    full = path if os.path.isabs(path) else os.path.join(VERIF, path)
+    env = dict(os.environ, PYTHONHASHSEED='0')
+    try:
+        p = subprocess.run([sys.executable, '-X', 'faulthandler', os.path.join(VERIF, 'harness', 'main.py'), prop.id, '--replay', full],
+                           stdout=subprocess.PIPE, stderr=subprocess.STDOUT, env=env, cwd=VERIF, timeout=900)
+    except subprocess.TimeoutExpired:
+        return False
+    return p.returncode == 1 and b'VIOLATION property=' in p.stdout
+
+
+def write_replay(prop, case, signature, detail, seed, tier, prelude=None):
     d = os.path.join(os.environ.get('VERIF_REPLAY_DIR') or os.path.join(VERIF, 'replays'), prop.id)
     os.makedirs(d, exist_ok=True)
-    blob = json.dumps({'property': prop.id, 'signature': signature, 'detail': detail, 'seed': seed, 'tier': tier,
-                       'case': case}, indent=1, sort_keys=True, default=str, ensure_ascii=True)
+    rec = {'property': prop.id, 'signature': signature, 'detail': detail, 'seed': seed, 'tier': tier, 'case': case}
+    if prelude:
+        rec['prelude'] = prelude
+        rec['note'] = 'the failure depends on state left behind by earlier cases in the same process: replaying decides the prelude cases first'
+    blob = json.dumps(rec, indent=1, sort_keys=True, default=str, ensure_ascii=True)
     h = hashlib.sha1(blob.encode()).hexdigest()[:12]
     path = os.path.join(d, h + '.json')
     with open(path, 'w', encoding='utf8') as f:
@@ -351,6 +379,13 @@ def run_property(prop, tier, seed, replay=None):
     known = load_known(prop.id)
     if replay is not None:
         case = load_case(replay)
+        with open(replay, encoding='utf8') as f:
+            blob = json.load(f)
+        for pc in (blob.get('prelude') or []) if isinstance(blob, dict) else []:
+            try:
+                _in_big_thread(prop.decide, pc)      # state left behind by earlier cases of the same process
+            except HarnessError:
+                pass
         out = _in_big_thread(prop.decide, case)
         print('replay %s: %s %s' % (replay, out.status, out.signature or out.reason))
         if out.status == 'fail':
@@ -360,6 +395,7 @@ def run_property(prop, tier, seed, replay=None):
         return 0
 
     violations = []      # (case, signature, detail)
+    preludes = {}        # case key -> cases decided before it in the same process
     # 1. oracle self-test
     selfinfo = _in_big_thread(prop.selftest, tier)
     # 2. replay tier + 3. known findings
@@ -407,6 +443,7 @@ def run_property(prop, tier, seed, replay=None):
                 stats.merge(st_)
                 if fail is not None:
                     violations.append(fail[:3])
+                    preludes[json.dumps(fail[0], sort_keys=True, default=str)] = fail[3]
     # bounded-exhaustive enumeration
     en = prop.enumerate(tier)
     if en is not None:
@@ -426,6 +463,7 @@ def run_property(prop, tier, seed, replay=None):
     # shrink + report
     rc = 0
     reported = []
+    unreproducible = []
     if violations:
         # smallest first; report one per signature (root-cause bucketing), at most 5
         violations.sort(key=lambda v: len(prop.case_key(v[0])))
@@ -434,6 +472,7 @@ def run_property(prop, tier, seed, replay=None):
             if sig in seen_sig:
                 continue
             seen_sig.add(sig)
+            orig_case, orig_detail = case, detail
             try:
                 small, sout = _in_big_thread(structural_shrink, prop, case, sig, known)
                 if sout is not None:
@@ -446,12 +485,26 @@ def run_property(prop, tier, seed, replay=None):
                 continue
             seen_sig.add(sig2)
             path = write_replay(prop, case, sig2, detail, seed, tier)
+            # a reported violation must reproduce from its replay file in a FRESH process
+            if not confirm_replay(prop, path):
+                okseq = False
+                pre = preludes.get(json.dumps(orig_case, sort_keys=True, default=str))
+                if pre:
+                    path2 = write_replay(prop, orig_case, sig, orig_detail, seed, tier, prelude=pre)
+                    okseq = confirm_replay(prop, path2)
+                    if okseq:
+                        path, sig2 = path2, sig
+                if not okseq:
+                    unreproducible.append({'signature': sig, 'replay': path})
+                    print('NOTE property=%s a failure (%s) did not reproduce in a fresh process from %s, alone or after the '
+                          'cases that preceded it: not reported as a violation' % (prop.id, sig, path))
+                    continue
             reported.append({'signature': sig2, 'replay': path})
             print('VIOLATION property=%s replay=%s' % (prop.id, path))
             print('  signature: %s' % sig2)
             if len(reported) >= 3:
                 break
-        rc = 1
+        rc = 1 if reported else 0
     # 5. evidence
     samples = []
     keys = sorted(stats.samples)
@@ -480,6 +533,8 @@ def run_property(prop, tier, seed, replay=None):
                                   'the generated search beside it is a sample'
     if reported:
         coverage['violations_reported'] = reported
+    if unreproducible:
+        coverage['unreproducible_failures'] = unreproducible
     wall = time.time() - t0
     write_evidence(prop, tier, seed, 'exploration', coverage, wall, len(reported))
     print('%s %s seed=%d: evaluations=%d distinct_nontrivial=%d discarded=%d known_excluded=%d violations=%d wall=%.1fs'
